@@ -138,7 +138,13 @@ where
             #[cfg(dev)]
             eprintln!("store: reducer thread started");
 
+            #[cfg(rs_store_verif)]
+            let vsid = crate::verif::store_id(&rx_store.metrics);
+            #[cfg(rs_store_verif)]
+            crate::verif::pt("loop.wait", vsid, 0, None, 0);
             while let Some(action_op) = rx.recv() {
+                #[cfg(rs_store_verif)]
+                crate::verif::pt("loop.recv", vsid, 0, crate::verif::desc_op(&action_op), 0);
                 let action_received_at = Instant::now();
                 rx_store.metrics.action_received(Some(&action_op));
 
@@ -155,6 +161,8 @@ where
                             action_received_at,
                         );
                         *rx_store.state.lock().unwrap() = new_state.clone();
+                        #[cfg(rs_store_verif)]
+                        crate::verif::pt("loop.wrote", vsid, 0, crate::verif::desc(&new_state), 0);
 
                         // do effects remain
                         if let Some(mut effects) = effects {
@@ -187,10 +195,14 @@ where
                         break;
                     }
                 }
+                #[cfg(rs_store_verif)]
+                crate::verif::pt("loop.wait", vsid, 0, None, 0);
             }
 
             // drop all subscribers
             rx_store.clear_subscribers();
+            #[cfg(rs_store_verif)]
+            crate::verif::pt("loop.end", vsid, 0, None, 0);
 
             #[cfg(dev)]
             eprintln!("store: reducer thread done");
@@ -261,6 +273,14 @@ where
     pub(crate) fn clear_subscribers(&self) {
         #[cfg(dev)]
         eprintln!("store: clear_subscribers");
+        #[cfg(rs_store_verif)]
+        crate::verif::pt(
+            "clear.begin",
+            crate::verif::store_id(&self.metrics),
+            0,
+            None,
+            0,
+        );
         match self.subscribers.lock() {
             Ok(mut subscribers) => {
                 for subscriber in subscribers.iter() {
@@ -475,6 +495,14 @@ where
         }
 
         if need_notify {
+            #[cfg(rs_store_verif)]
+            crate::verif::pt(
+                "ntf.snap",
+                crate::verif::store_id(&self.metrics),
+                0,
+                None,
+                0,
+            );
             let subscribers = self.subscribers.lock().unwrap().clone();
             for subscriber in subscribers.iter() {
                 subscriber.on_notify(next_state, action);
@@ -517,8 +545,24 @@ where
         // Shutdown the thread pool with timeout
         // lock pool
         let pool_took = self.pool.lock().unwrap().take();
+        #[cfg(rs_store_verif)]
+        crate::verif::pt(
+            "pool.took",
+            crate::verif::store_id(&self.metrics),
+            0,
+            None,
+            pool_took.is_some() as i64,
+        );
         // unlock pool
         if let Some(pool) = pool_took {
+            #[cfg(rs_store_verif)]
+            crate::verif::pt(
+                "stop.join",
+                crate::verif::store_id(&self.metrics),
+                0,
+                None,
+                0,
+            );
             if cfg!(dev) {
                 // wait forever
                 pool.shutdown_join();
@@ -655,7 +699,17 @@ where
         #[cfg(dev)]
         eprintln!("store: {} channel thread started", _name);
 
+        #[cfg(rs_store_verif)]
+        crate::verif::pt("chloop.wait", 0, rx.vid, None, 0);
         while let Some(msg) = rx.recv() {
+            #[cfg(rs_store_verif)]
+            crate::verif::pt(
+                "chloop.recv",
+                0,
+                rx.vid,
+                None,
+                matches!(msg, ActionOp::Action(_)) as i64,
+            );
             match msg {
                 ActionOp::Action((created_at, state, action)) => {
                     let started_at = Instant::now();
@@ -674,7 +728,11 @@ where
                     break;
                 }
             }
+            #[cfg(rs_store_verif)]
+            crate::verif::pt("chloop.wait", 0, rx.vid, None, 0);
         }
+        #[cfg(rs_store_verif)]
+        crate::verif::pt("chloop.exit", 0, rx.vid, None, 0);
 
         #[cfg(dev)]
         eprintln!("store: {} channel thread done", _name);
@@ -688,6 +746,8 @@ where
 {
     handle: Mutex<Option<JoinHandle<()>>>,
     tx: Mutex<Option<SenderChannel<T>>>,
+    #[cfg(rs_store_verif)]
+    vid: usize,
 }
 
 impl<T> ChanneledSubscriber<T>
@@ -696,12 +756,16 @@ where
 {
     pub(crate) fn new(handle: JoinHandle<()>, tx: SenderChannel<T>) -> Self {
         Self {
+            #[cfg(rs_store_verif)]
+            vid: tx.vid,
             handle: Mutex::new(Some(handle)),
             tx: Mutex::new(Some(tx)),
         }
     }
 
     fn clear_resource(&self) {
+        #[cfg(rs_store_verif)]
+        crate::verif::pt("ch.txlock", 0, self.vid, None, 0);
         // drop channel
         if let Ok(mut tx) = self.tx.lock() {
             drop(tx.take());
@@ -709,6 +773,8 @@ where
         // join the thread
         if let Ok(mut handle) = self.handle.lock() {
             if let Some(h) = handle.take() {
+                #[cfg(rs_store_verif)]
+                crate::verif::pt("ch.join", 0, self.vid, None, 0);
                 let _ = h.join();
             }
         }
